@@ -175,3 +175,21 @@ Definition hyp_level (R : registry) (ws : list N) (v : val) : nat :=
 (* the model's base64 against the real library: bytes, base64.b64encode(bytes) *)
 Definition b64_case (c : bytes * str) : bool :=
   str_eqb (b64enc (fst c)) (snd c) && opt_eqb str_eqb (b64dec (snd c)) (Some (fst c)).
+
+(* strict-canonical predicate against the library: string, (b64decode(validate=True) succeeds and re-encodes to it) *)
+Definition canon_case (c : str * bool) : bool := Bool.eqb (b64_canonical (fst c)) (snd c).
+
+(* top-level outcome class: 0 = a value, 1 = ValueError itself, 2 = any other exception *)
+Definition outcome_code (o : outcome) : nat := match o with OVal _ => 0 | OValueError => 1 | ORaise => 2 end.
+Definition top_outcome_case (R : registry) (ws : list N) (c : json * list (str * option bytes) * nat) : bool :=
+  let '(j, tab, code) := c in
+  Nat.eqb (outcome_code (from_json_outcome (dec_of tab) (isspace_of ws) R j)) code.
+
+(* instances with the CONCRETE codec (no recorded tables): the serialiser output always; the whole pipeline where
+   the hypotheses of C05_roundtrip_concrete_codec hold (elsewhere Python's lenient decoder may differ from the
+   strict one on document strings sitting under marker keys) *)
+Definition b64_inst_case (R : registry) (ws : list N) (c : val * json * option val) : bool :=
+  let '(v, jt, r) := c in
+  json_eqb (serialize b64enc true v) jt
+  && (if hyps R ws v && bytes_ok v
+      then opt_eqb val_eqb (pipeline b64enc b64dec (isspace_of ws) R v) r else true).
